@@ -265,7 +265,8 @@ func glueTyped(dir string) (*typedInfo, error) {
 		sb.WriteString("// SimWithServerURL: the package has no per-call override of the server URL through the context.\nvar SimWithServerURL any\n\n")
 	}
 	// the package's Labeler (custom attributes for the request metrics), as an application would use it
-	if b, err := os.ReadFile(filepath.Join(dir, "oas_labeler_gen.go")); err == nil && strings.Contains(string(b), "\nfunc LabelerFromContext(ctx context.Context) (*Labeler, bool) {") && imports["attribute"] != "" {
+	if b, err := os.ReadFile(filepath.Join(dir, "oas_labeler_gen.go")); err == nil && strings.Contains(string(b), "\nfunc LabelerFromContext(ctx context.Context) (*Labeler, bool) {") && strings.Contains(string(b), "\"go.opentelemetry.io/otel/attribute\"") {
+		imports["attribute"] = "go.opentelemetry.io/otel/attribute"
 		sb.WriteString("// SimLabel adds one label through the Labeler of the context and returns what that Labeler holds afterwards.\nvar SimLabel any = func(ctx context.Context, key, val string, pause func()) string {\n\tl, _ := LabelerFromContext(ctx)\n\tl.Add(attribute.String(key, val))\n\tpause()\n\tset := l.AttributeSet()\n\treturn set.Encoded(attribute.DefaultEncoder())\n}\n\n")
 	} else {
 		sb.WriteString("// SimLabel: the package has no Labeler.\nvar SimLabel any\n\n")
